@@ -5,14 +5,96 @@ Binding R: emitted inputs replayed on the real block processor built with a 0-bi
 gensquashfs built with 1/2/4-bit checksums packs many equal-sized incompressible blocks and tails; every
 file is read back (rdsquashfs -c and the independent decoder) and compared byte-wise; sharing is read
 off the decoded inodes."""
-import json, os, random, shutil, sys
+import json, os, random, shutil, subprocess, sys
 from concurrent.futures import ThreadPoolExecutor
 import vlib, build, bpbind, gen, sqfsimg
-from vlib import VERIF, Evidence, Reporter, run_tlc, scratch, SEED, sh
+from vlib import VERIF, Evidence, Reporter, run_tlc, write_cfg, scratch, SEED, sh
 
 PID = "C08"
 DEVS = ["DedupHashOnly", "FragHashOnly", "InFlightCopyDropped"]
 PROPS = ("NoError", "DataIntegrity", "Sharing", "NoLeak", "FragTableSane")
+
+
+def bp_api_stage(work, rep, ev, tier):
+    """spec/BlockProcApi.tla: ANY sequence of front end calls (legal or not) has a specified result; every such sequence of <= 4 (5: sample)
+    calls on the real block processor (ASan, 2 workers): whatever was begun, appended and ended reads back intact from the output, every
+    manually submitted block is written exactly once."""
+    M = 4
+    ALL = {'"%s"' % o for o in ("B0", "BF", "BX", "A1", "A4", "A5", "E", "M1", "M4", "M5", "MX", "S", "F")}
+    CORE = {'"%s"' % o for o in ("B0", "BF", "A4", "A5", "M1", "E")}
+    C = {"MaxCalls": M, "Emit": False, "EndKeepsBegun": False, "SubmitIgnoresBegun": False, "OpSet": ALL}
+    INV = ["BegunConsistent", "FilesAreEnds", "NothingBetweenBlocks", "UnitsAccounted"]
+    cfg = work + "/bpapi.cfg"
+    write_cfg(cfg, spec="Spec", constants=C, invariants=INV, deadlock=False)
+    r = run_tlc("BlockProcApi", cfg, workers=8, timeout=1500, heap="8g")
+    ev.tlc(r, "BlockProcApi MaxCalls=%d" % M)
+    if not r["ok"]:
+        print("MODEL-FAILURE: BlockProcApi violates %s" % r["violated"])
+        return None
+    for dev, want in (("EndKeepsBegun", "BegunConsistent"), ("SubmitIgnoresBegun", "NothingBetweenBlocks")):
+        write_cfg(cfg, spec="Spec", constants=dict(C, **{dev: True}), invariants=INV, deadlock=False)
+        r = run_tlc("BlockProcApi", cfg, workers=4, timeout=600)
+        ev.tlc(r, "dev BlockProcApi " + dev)
+        if r["violated"] != want:
+            print("SELF-CHECK-FAILED: BlockProcApi deviation %s: %s" % (dev, r["violated"]))
+            return None
+    cases = []
+    plan = [(ALL, 3, None), (ALL, 4, 4000), (CORE, 5, None)] if tier == "quick" else [(ALL, 4, None), (ALL, 5, 60000), (CORE, 6, None)]
+    for ops, m, cap in plan:
+        write_cfg(cfg, spec="Spec", constants=dict(C, MaxCalls=m, Emit=True, OpSet=ops), invariants=["EmitOK"], deadlock=False)
+        r = run_tlc("BlockProcApi", cfg, workers=8, timeout=2400, heap="12g")
+        got = bpbind.parse_emitted(r["out"])
+        if len(got) != len(ops) ** m:
+            print("SELF-CHECK-FAILED: BlockProcApi emitted %d call sequences of length %d" % (len(got), m))
+            return None
+        if cap:
+            random.Random(SEED).shuffle(got)
+            got = got[:cap]
+        cases += got
+    binp = work + "/replay_bpapi"
+    if not build.compile_harness(VERIF + "/harness/replay_bpapi.c", binp, variant="asan"):
+        raise RuntimeError("harness build failed")
+
+    def do(i):
+        c = cases[i]
+        prog = [e[0] for e in c["log"]]
+        try:
+            q = subprocess.run([binp] + prog, capture_output=True, text=True, timeout=60, env=dict(os.environ, ASAN_OPTIONS="detect_leaks=1"))
+            return i, prog, q.returncode, q.stdout, q.stderr
+        except subprocess.TimeoutExpired:
+            return i, prog, 124, "", "timeout"
+    n, seen, drift = 0, set(), []
+    with ThreadPoolExecutor(16) as ex:
+        for i, prog, rc, out, err in ex.map(do, range(len(cases))):
+            n += 1
+            c = cases[i]
+            what = None
+            if "ERROR: AddressSanitizer" in err or "LeakSanitizer" in err:
+                what = ("bpapi-memory-error", err[err.find("ERROR:"):][:160])
+            elif rc == 124:
+                what = ("bpapi-hang", "a call never returns")
+            elif rc != 0:
+                what = ("bpapi-crash", "exit status %d %s" % (rc, err[-100:]))
+            else:
+                real = json.loads(out.strip().split("\n")[-1])
+                if any(not f["intact"] for f in real["files"]):
+                    what = ("bpapi-file-content", "a file that was begun, appended to and ended does not read back from the output: %s" % real["files"])
+                elif any(mb["written"] != 1 or not mb["intact"] for mb in real["manual"]):
+                    what = ("bpapi-manual-block", "a manually submitted block is not written exactly once, intact: %s" % real["manual"])
+                else:
+                    wl = [[e[0], e[1]] for e in c["log"]]
+                    wf = [{"units": f["units"], "nblk": f["nblk"], "frag": f["frag"], "intact": True} for f in c["files"]]
+                    wm = [{"units": u, "written": 1, "intact": True} for u in c["manual"]]
+                    if real["log"] != wl or real["files"] != wf or real["manual"] != wm or real["finish"] != 0:
+                        drift.append({"calls": prog, "real": real, "model": {"log": wl, "files": wf, "manual": wm}})
+            if what and what[0] not in seen:
+                seen.add(what[0])
+                rep.violation(what[0], "block processor, calls %s: %s" % (" ".join(prog), what[1]), data={"bpapi": prog})
+    if drift:
+        print("SPEC-DRIFT (no alarm): %d call sequences answer differently from BlockProcApi.tla (results / shapes), e.g. %s" % (len(drift), json.dumps(drift[0])[:400]))
+    ev.set("block_processor_call_sequences", n)
+    ev.set("block_processor_call_sequence_drift", len(drift))
+    return n
 
 
 def run(tier):
@@ -197,6 +279,11 @@ def run(tier):
                     if len({(x["start"], x["frag_idx"], x["frag_off"], tuple(w[2] for w in x["blocks"])) for x in (ia, ib, i0)}) != 1:
                         rep.violation("dedup-not-shared", "%d-bit checksum, %s: identical files do not share storage" % (bits, comp),
                                       artefact=out, data={"bits": bits})
+    an = bp_api_stage(work, rep, ev, tier)
+    if an is None:
+        ev.write()
+        return 2
+    total += an
     ev.set("block_processor_replays", total)
     ev.set("tool_runs", runs)
     ev.set("files_read_back", files_checked)
